@@ -117,7 +117,7 @@ def check(run):
             for s in res["samples"]:
                 run.sample(s)
     for n, b in bases.items():
-        if b not in ("accept", "True"):
+        if b not in ("accept", "True") and not n.endswith(":floatver"):      # (an integral-float version is an unspecified class)
             raise MachineryFailure(f"the valid argument tuple for {n} is not accepted ({b}); mutation fixtures are wrong")
     evs = [{"api": a, "outcome": o} for (a, o) in sorted(events)]
     path = os.path.join(run.scratch, "c13-events.json")
